@@ -65,4 +65,30 @@ Section BlockTableP.
     unfold b_get, b_set. cbn [b_db b_cache]. rewrite kv_get_put.
     destruct (n =? k); reflexivity.
   Qed.
+
+  Lemma kv_get_fold_put_other (l d : list (N * V)) x :
+    (forall e, In e l -> fst e <> x) ->
+    kv_get (fold_left (fun d e => kv_put d (fst e) (snd e)) l d) x = kv_get d x.
+  Proof.
+    revert d. induction l as [|e l IH]; intros d H; [reflexivity|].
+    cbn [fold_left]. rewrite IH by (intros e' He'; apply H; right; assumption).
+    rewrite kv_get_put. destruct (N.eqb_spec (fst e) x) as [E|E]; [|reflexivity].
+    exfalso. apply (H e (or_introl eq_refl) E).
+  Qed.
+
+  (* a crash after any number of the puts of commit(), then reopen and a reorg to n below every
+     row that was being committed: the rows up to n are exactly the durable ones *)
+  Theorem b_crash_in_commit_then_reorg (t : btable) k n x :
+    (forall e, In e (b_cache t) -> n < fst e) ->
+    b_get (b_reorg (mkBTable (fold_left (fun d e => kv_put d (fst e) (snd e)) (firstn k (b_cache t)) (b_db t)) []) n) x
+    = if x <=? n then kv_get (b_db t) x else None.
+  Proof.
+    intros H. rewrite b_get_reorg. destruct (N.leb_spec x n) as [Hx|Hx]; [|reflexivity].
+    unfold b_get. cbn [b_cache b_db kv_get]. apply kv_get_fold_put_other.
+    intros e He.
+    assert (Hin : In e (b_cache t)).
+    { clear -He. revert k He. induction (b_cache t) as [|a l IH]; intros k He; destruct k; cbn [firstn] in He; try (destruct He; fail).
+      destruct He as [<-|He]; [left; reflexivity|right; apply (IH k He)]. }
+    specialize (H e Hin). lia.
+  Qed.
 End BlockTableP.
